@@ -189,7 +189,7 @@ TABLE["C14"] = {
     "pipelines": [{"name": "asyncs", "cmd": ["asyncs"], "n_quick": 300, "n_thorough": 20000, "timeout": 900, "timeout_thorough": 3400}],
     "fail_keys": ["c14."],
     "trusted_base": MACHINE_TB + ["rustc gives every concrete future type its own non-inlined `poll` (opt-level 0, as the README prescribes) and `fn() -> Poll<T>` is ABI-compatible with `poll(Pin<&mut F>, &mut Context)` for the outputs used, incl. by-memory ones: observed by the runs, not modelled", "hand-written executor counting polls"],
-    "rule": "PRNG histories of 3-14 operations (fake site 0/1, await with random argument, drop+new injector) over six sibling async functions: free fns and a method, by-value and by-reference parameters, outputs unit / u32 (two functions with the same output type) / String / u64 / a 72-byte struct with a heap field; every history ends with a drop and an await of all six; per await: poll count, value digest, body-run counter of the awaited function and of all others, value-expression evaluation counter. Each history in a forked child. Distinct by history; non-trivial when it contains a faked await",
+    "rule": "PRNG histories of 3-14 operations (fake site 0/1, await with random argument, drop+new injector) over seven sibling async functions: free fns and a method, by-value and by-reference parameters, outputs unit / u32 (two functions with the same output type) / String / u64 / a 72-byte struct with a heap field / bool; every history ends with a drop and an await of all seven; per await: poll count, value digest, body-run counter of the awaited function and of all others, value-expression evaluation counter. Each history in a forked child. Distinct by history; non-trivial when it contains a faked await",
     "assumptions": ["see trusted base: monomorphisation and ABI facts are observed, not proved"],
     "level_text": "Theorems: for every install history the poll entry last faked transfers control to the generated ready-function within four instructions before any original byte runs (C14_first_poll_reaches_value = C02_latest_wins at the poll entry), poll entries of sibling functions keep all their bytes (C14_siblings_untouched), after the drop every faked entry is byte-for-byte original (C14_after_drop), the async gate accepts iff the output types render identically (C14_gate), and in the await-level model a faked await completes on poll 1 with the latest value without running the body (C14_await_spec, C14_latest_and_drop). Correspondence: real async fns under a poll-counting executor.",
     "level_note": "Partial by nature (DESIGN section 6, C14): what rustc does with future types and the Poll<T> ABI is outside the model.",
@@ -201,7 +201,7 @@ TABLE["C13"] = {
     "fail_keys": ["c13.", "a32.scratch", "a64.tramp.dest", "a64.long.dest"],
     "filter_prefix": ["cc", "a32patch", "a64tramp", "a64long", "a64bool"],
     "trusted_base": TB_COMMON + [ISA_X86, ISA_A64, ISA_A32, "System V x86-64 / AAPCS64 / AAPCS32 register roles as listed in Props/C13.lean", "the real CPU executes the x86-64 path in the assembly probe"],
-    "rule": "x86-64 assembly probe: PRNG sentinels in rdi, rsi, rdx, rcx, r8, r9, xmm0-7, two stack arguments, rbx, rbp, r12-r15; the faked function is called; an assembly fake records what it receives and returns known rax, rdx, xmm0, xmm1; alternately a near fake (short trampoline) and a copy of the fake at 0x6100_0000_0000 (> 2 GiB from the trampoline: long form mov rax, imm64; jmp rax). Rust-level shapes: 12 mixed integer/float arguments, 72-byte struct return (hidden slot), two-register return, float return. The Arm lines (registers written by the decoded sequences) come from the host-compiled arm64/arm sources. Distinct by sentinel vector",
+    "rule": "x86-64 assembly probe: PRNG sentinels in rdi, rsi, rdx, rcx, r8, r9, xmm0-7, two stack arguments, rbx, rbp, r12-r15; the faked function is called; an assembly fake records what it receives and returns known rax, rdx, xmm0, xmm1; alternately a near fake (short trampoline) and a copy of the fake at 0x6100_0000_0000 (> 2 GiB from the trampoline: long form mov rax, imm64; jmp rax). when the CPU has AVX, the eight ymm registers loaded with 256-bit patterns and recorded by an AVX fake (System V passes __m256 in whole ymm registers), both forms. Rust-level shapes: 12 mixed integer/float arguments, 72-byte struct return (hidden slot), two-register return, float return. The Arm lines (registers written by the decoded sequences) come from the host-compiled arm64/arm sources. Distinct by sentinel vector",
     "assumptions": ["ISA fragments", "rax carries no argument in the property's register sets (note: %al is the vector-register count of variadic calls; faking a variadic function through the long form would clobber it)"],
     "level_text": "Theorems: on x86-64, for every placement and CPU state, control arrives at the fake with all six integer argument registers, all vector registers, callee-saved registers, rsp and flags unchanged and no store executed (C13_x86, from C01_reach); on AArch64 the trampoline writes only x9, the entry B nothing, the macOS long entry only x16 (C13_a64_*); on 32-bit ARM the callee-saved clause is proved false (C13_a32_callee_saved_false = finding F6, reported as KNOWN-FINDING). Correspondence: assembly probe on the real CPU for both trampoline forms.",
     "level_note": "Arm behaviour is from the manuals only (no hardware/emulator).",
